@@ -61,6 +61,9 @@ func ByteStreamConsumer(opts ...byteStreamOpt) Consumer {
 		if data == nil {
 			return errors.New("nil destination for ByteStreamConsumer")
 		}
+		if v := reflect.ValueOf(data); v.Kind() == reflect.Ptr && v.IsNil() {
+			return errors.New("nil pointer destination for ByteStreamConsumer")
+		}
 
 		closer := defaultCloser
 		if vals.Close {
